@@ -62,13 +62,87 @@ def checkBlock (height b f : Nat) (fa : Int) : List Tx → List Msg → Bool
     | some (_, rest') => checkBlock height b f fa txs rest'
     | none => decide (P15tx height b f fa tx none) && checkBlock height b f fa txs rest
 
+/-! ### `events`: one handler across a sequence of HandleEvents calls, several resources from the real NewBtcConfig -/
+
+def ridHex (rid : Nat) : String := toHex [UInt8.ofNat rid, 0xaa]
+
+def showMsgR (src height : Nat) (x : Nat × Msg) : String :=
+  let m := x.2
+  s!"{m.dest}/{m.nonce}/{toHexW m.amount}/{toHexW m.recipient}/{src}-{m.dest}-{height}/{src}/{ridHex x.1}"
+
+def parseMsgR (src height : Nat) (s : String) : Option (Nat × Msg) :=
+  match s.splitOn "/" with
+  | [d, n, a, r, mid, sc, rid] => do
+    let d ← d.toNat?
+    let n ← n.toNat?
+    let a ← fromHex a
+    let r ← fromHex r
+    let ridB ← fromHex rid
+    match ridB with
+    | [x, 0xaa] => if mid = s!"{src}-{d}-{height}" ∧ sc = toString src then pure (x.toNat, ⟨d, n, a, r⟩) else none
+    | _ => none
+  | _ => none
+
+def parseRes (s : String) : Option Res :=
+  match s.splitOn "," with
+  | [rid, a, f] => do pure ⟨← rid.toNat?, ← a.toNat?, ← f.toInt?⟩
+  | _ => none
+
+def takeFirstR (p : Nat × Msg → Bool) : List (Nat × Msg) → Option ((Nat × Msg) × List (Nat × Msg))
+  | [] => none
+  | m :: ms => if p m then some (m, ms) else (takeFirstR p ms).map fun (x, r) => (x, m :: r)
+
+/-- every transaction of the block accounts for exactly one forwarded message satisfying P15txR, or P15txR holds with nothing
+    forwarded; nothing forwarded is left over (so: nothing twice, nothing lost, nothing invented) -/
+def checkBlockR (height f : Nat) (rs : List Res) : List Tx → List (Nat × Msg) → Bool
+  | [], rest => rest.isEmpty
+  | tx :: txs, rest =>
+    match takeFirstR (fun m => decide (P15txR height f rs tx (some m))) rest with
+    | some (_, rest') => checkBlockR height f rs txs rest'
+    | none => decide (P15txR height f rs tx none) && checkBlockR height f rs txs rest
+
+/-- group by destination: ascending destinations, block order inside a batch -/
+def batchesOf (ms : List (Nat × Msg)) : List (List (Nat × Msg)) :=
+  let dests := ((ms.map (·.2.dest)).eraseDups).mergeSort (· ≤ ·)
+  dests.map fun d => ms.filter (·.2.dest = d)
+
+structure Call where
+  height : Nat
+  fault  : Nat
+  txs    : List Tx
+
+def parseCall (s : String) : Option Call :=
+  match s.splitOn "^" with
+  | [h, f, txs] => do pure ⟨← h.toNat?, ← f.toNat?, ← (items txs "|").mapM parseTx⟩
+  | _ => none
+
+/-- the history-free answer to one HandleEvents call -/
+def modelCall (src f : Nat) (rs : List Res) (c : Call) : String :=
+  if c.fault ≠ 0 then "err"
+  else joinOr ((batchesOf (processR c.height f rs c.txs)).map fun b => joinOr (b.map (showMsgR src c.height)) ";") "+"
+
+/-- the property on what one call actually did: a failed fetch forwards nothing and reports the error; otherwise one batch
+    per destination, and the forwarded messages are exactly the block's credited deposits, each once -/
+def checkCall (src f : Nat) (rs : List Res) (c : Call) (impl : String) : Bool :=
+  if c.fault ≠ 0 then impl == "err"
+  else
+    match (items impl "+").mapM (fun b => (items b ";").mapM (parseMsgR src c.height)) with
+    | none => false
+    | some bs =>
+      bs.all (fun b => !b.isEmpty && b.all (fun m => some m.2.dest == (b.head?.map (·.2.dest)))) &&
+      decide ((bs.filterMap (·.head?.map (·.2.dest))).eraseDups.length = bs.length) &&
+      checkBlockR c.height f rs c.txs bs.flatten
+
+/-- unparsable arguments (e.g. produced by the runner's shrinking of a structured argument) carry no property claim -/
+def badArgs : Verdict := ⟨"BADARGS", true, "badargs"⟩
+
 def handle (op : String) (args : List String) (impl : String) : Option Verdict :=
   match op, args with
   | "decode", [b, f, fa, vs] => some <| Id.run do
-    let some b := b.toNat? | return bad
-    let some f := f.toNat? | return bad
-    let some fa := fa.toInt? | return bad
-    let some vs := parseVouts vs | return bad
+    let some b := b.toNat? | return badArgs
+    let some f := f.toNat? | return badArgs
+    let some fa := fa.toInt? | return badArgs
+    let some vs := parseVouts vs | return badArgs
     let m := decode b f fa vs
     let ok := match parseDec impl with
       | some o => decide (P15dec b f fa vs o)
@@ -78,11 +152,11 @@ def handle (op : String) (args : List String) (impl : String) : Option Verdict :
     return ⟨showDec m, ok, tag⟩
   | "convrange", [_, _, mode] => some ⟨"0", impl == "0", s!"convrange:{mode}"⟩
   | "handle", [src, nonce, blk, amt, data] => some <| Id.run do
-    let some src := src.toNat? | return bad
-    let some nonce := nonce.toNat? | return bad
-    let some blk := blk.toNat? | return bad
-    let some amt := amt.toNat? | return bad
-    let some data := fromHex data | return bad
+    let some src := src.toNat? | return badArgs
+    let some nonce := nonce.toNat? | return badArgs
+    let some blk := blk.toNat? | return badArgs
+    let some amt := amt.toNat? | return badArgs
+    let some data := fromHex data | return badArgs
     let m := handleDeposit amt data
     let ms := match m with
       | .err => "err" | .panic => "panic"
@@ -96,29 +170,41 @@ def handle (op : String) (args : List String) (impl : String) : Option Verdict :
     let kind := match m with | .err => "err" | .panic => "panic" | .msg _ _ _ => "msg"
     return ⟨ms, ok, s!"handle:{kind}:fields={min (splitOn 0x5f data).length 3}:addrlen={min ((fromHexGeth (field0 data)).length / 10) 3}"⟩
   | "nonce", [h, tx] => some <| Id.run do
-    let some h := h.toNat? | return bad
-    let some tx := fromHex tx | return bad
+    let some h := h.toNat? | return badArgs
+    let some tx := fromHex tx | return badArgs
     -- property: a value was produced and it is the same for handlers with different state (checked by the op itself);
     -- the model additionally pins the function
     let ok := match impl.toNat? with | some n => decide (n < 2 ^ 64) | none => false
     return ⟨toString (calculateNonce h tx), ok, s!"nonce:len={min tx.length 64}"⟩
   | "sha", [m] => some <| Id.run do
-    let some m := fromHex m | return bad
+    let some m := fromHex m | return badArgs
     let r := toHex (Sha256.hash m)
     return ⟨r, r == impl, s!"sha:blocks={(m.length + 9 + 63) / 64}"⟩
   | "process", [src, height, b, f, fa, txs] => some <| Id.run do
-    let some src := src.toNat? | return bad
-    let some height := height.toNat? | return bad
-    let some b := b.toNat? | return bad
-    let some f := f.toNat? | return bad
-    let some fa := fa.toInt? | return bad
-    let some txs := (items txs "|").mapM parseTx | return bad
+    let some src := src.toNat? | return badArgs
+    let some height := height.toNat? | return badArgs
+    let some b := b.toNat? | return badArgs
+    let some f := f.toNat? | return badArgs
+    let some fa := fa.toInt? | return badArgs
+    let some txs := (items txs "|").mapM parseTx | return badArgs
     if height = 0 then return ⟨"err", impl == "err", "process:fetch-error"⟩   -- the harness fails the block fetch at height 0
     let ms := (process height b f fa txs).mergeSort (fun x y => x.dest ≤ y.dest)
     let ok := match (items impl ";").mapM (parseMsg src height) with
       | some out => checkBlock height b f fa txs out
       | none => false
     return ⟨joinOr (ms.map (showMsg src height)) ";", ok, s!"process:txs={min txs.length 4}:msgs={min ms.length 3}"⟩
+  | "events", [src, f, rs, calls] => some <| Id.run do
+    let some src := src.toNat? | return badArgs
+    let some f := f.toNat? | return badArgs
+    let some rs := (items rs ";").mapM parseRes | return badArgs
+    let rs := rs.mergeSort (fun a b => a.rid ≤ b.rid)     -- ProcessDeposits matches resources in resource-id order
+    let some cs := (calls.splitOn "!").mapM parseCall | return badArgs
+    let m := "!".intercalate (cs.map (modelCall src f rs))
+    let outs := impl.splitOn "!"
+    let ok := outs.length == cs.length && (cs.zip outs).all fun (c, o) => checkCall src f rs c o
+    let dests := (cs.map fun c => (batchesOf (processR c.height f rs c.txs)).length).foldl max 0
+    let repeated := decide ((cs.map (·.height)).eraseDups.length < cs.length)
+    return ⟨m, ok, s!"events:calls={min cs.length 4}:res={min rs.length 3}:max-dests={min dests 3}:faults={cs.any (·.fault ≠ 0)}:repeated-height={repeated}"⟩
   | _, _ => none
 
 end Sygma.Drv.C15
